@@ -172,6 +172,14 @@ func runC09(res *result) {
 					plan.Ops = append(plan.Ops, drvOp{Op: "call", Call: &pre})
 					exps = append(exps, exp{&pre, fmt.Sprintf("rpc echo, response headers preset on the caller's FContext, headers=%v cid=%q timeout=%dms %s/%s", hm, cid, to, tr, pr)})
 				}
+				if n%4 == 1 && tr != "tcp" {
+					// the handler sets its response headers and then makes an onward call with the context it
+					// was given: everything it set still reaches the caller
+					on := *rpc
+					on.Outcome = &outcomeSpec{Kind: "return", Value: iv(int64(n) + 1), RespHdr: respHdr, Onward: true}
+					plan.Ops = append(plan.Ops, drvOp{Op: "call", Call: &on})
+					exps = append(exps, exp{&on, fmt.Sprintf("rpc echo, handler makes an onward call with its own context after setting response headers, headers=%v cid=%q timeout=%dms %s/%s", hm, cid, to, tr, pr)})
+				}
 				if n%3 == 0 && tr != "tcp" {
 					// the handler sets its response headers and then fails (undeclared error, application
 					// exception): the caller gets an error, and still every response header
